@@ -948,14 +948,26 @@ func (k msgServer) BuyStorage("""),
 
 
 # ---- behaviour-preserving refactors written by independent sub-agents (benign/<prop>/*.diff): each is run against
-# every property whose check reads the touched code (listed in benign/<prop>/props.json, default: the property itself)
-import glob, json as _json
+# every property whose check reads the module(s) the diff touches
+import glob
+_MODPROPS = {
+ "x/storage": ["C01","C02","C03","C04","C05","C06","C07","C12","C14","C15","C17","C19"],
+ "x/rns": ["C08","C09","C16","C11","C19"],
+ "x/filetree": ["C10","C20","C11"],
+ "x/jklmint": ["C13","C05","C06","C19"],
+ "x/notifications": ["C18","C11","C19"],
+ "x/oracle": ["C11","C19"],
+ "wasmbinding": ["C11","C05","C07"],
+}
 for _d in sorted(glob.glob(os.path.join(os.path.dirname(os.path.abspath(__file__)), "..", "benign", "*"))):
     _own = os.path.basename(_d)
-    _props = [_own]
-    if os.path.exists(os.path.join(_d, "props.json")):
-        _props = _json.load(open(os.path.join(_d, "props.json")))
     for _f in sorted(glob.glob(os.path.join(_d, "*.diff"))):
         _base = os.path.basename(_f)[:-5]
-        for _p in _props.get(_base, [_own]) if isinstance(_props, dict) else _props:
+        _props = {_own}
+        for _ln in open(_f):
+            if _ln.startswith("+++ b/"):
+                for _m, _ps in _MODPROPS.items():
+                    if _ln[6:].startswith(_m + "/"):
+                        _props.update(_ps)
+        for _p in sorted(_props):
             benign_patch(_p, "agent-%s-%s" % (_own, _base), os.path.join("benign", _own, os.path.basename(_f)), "independent benign refactor")
